@@ -10,6 +10,13 @@ import (
 type memorySessionStore struct {
 	lock     sync.Mutex
 	sessions map[string]*EncryptedData
+	locks    map[string]memoryLockEntry
+	lockSeq  uint64
+}
+
+type memoryLockEntry struct {
+	token     uint64
+	expiresAt time.Time
 }
 
 var _ Store = &memorySessionStore{}
@@ -17,6 +24,7 @@ var _ Store = &memorySessionStore{}
 func NewMemory() Store {
 	return &memorySessionStore{
 		sessions: make(map[string]*EncryptedData),
+		locks:    make(map[string]memoryLockEntry),
 	}
 }
 
@@ -64,6 +72,42 @@ func (s *memorySessionStore) Update(_ context.Context, key string, value *Encryp
 	return nil
 }
 
-func (s *memorySessionStore) MakeLock(_ string) Lock {
-	return NewNoOpLock()
+func (s *memorySessionStore) MakeLock(key string) Lock {
+	return &memoryLock{store: s, key: key}
+}
+
+var _ Lock = &memoryLock{}
+
+// memoryLock is an in-process lock with a lease, so that concurrent requests for the same session
+// do not perform the refresh grant (and present the same refresh token) at the same time.
+type memoryLock struct {
+	store *memorySessionStore
+	key   string
+	token uint64
+}
+
+func (l *memoryLock) Acquire(_ context.Context, duration time.Duration) error {
+	s := l.store
+	s.lock.Lock()
+	defer s.lock.Unlock()
+
+	if held, ok := s.locks[l.key]; ok && time.Now().Before(held.expiresAt) {
+		return ErrAcquireLock
+	}
+
+	s.lockSeq++
+	l.token = s.lockSeq
+	s.locks[l.key] = memoryLockEntry{token: l.token, expiresAt: time.Now().Add(duration)}
+	return nil
+}
+
+func (l *memoryLock) Release(_ context.Context) error {
+	s := l.store
+	s.lock.Lock()
+	defer s.lock.Unlock()
+
+	if held, ok := s.locks[l.key]; ok && held.token == l.token {
+		delete(s.locks, l.key)
+	}
+	return nil
 }
